@@ -1701,7 +1701,7 @@ pub(crate) mod __verif {
             1 => Insn::CharSet([c, s[0] as u32, s[1] as u32, s[2] as u32]),
             2 => Insn::Bracket(0),
             3 => Insn::AsciiBracket(crate::bytesearch::AsciiBitmap(kani::any())),
-            4 => if s[3] & 1 == 0 { Insn::MatchAny } else { Insn::MatchAnyExceptLineTerminator },
+            4 => Insn::MatchAnyExceptLineTerminator,
             5 => Insn::ByteSet2(crate::bytesearch::ByteArraySet([s[0], s[1]])),
             6 => Insn::ByteSet4(crate::bytesearch::ByteArraySet(s)),
             _ => Insn::ByteSeq1([s[0]]),
